@@ -21,31 +21,29 @@ func NewPreviewReader(l zerolog.Logger) previewReader {
 }
 
 func (pr *previewReader) RenderPreview(r io.Reader, h meta.PreviewHeader) error {
-	img := make([]byte, h.Size)
-	offset := uint32(0)
-	maxSize := uint32(2048)
-	for {
-		maxOffset := offset + maxSize
-		if h.Size < maxOffset {
-			maxOffset = h.Size
+	// h.Size is what the file declares: grow the image as bytes arrive instead of allocating it up front
+	var img []byte
+	var chunk [2048]byte
+	for uint32(len(img)) < h.Size {
+		n := h.Size - uint32(len(img))
+		if n > uint32(len(chunk)) {
+			n = uint32(len(chunk))
 		}
-
-		readLength, err := r.Read(img[offset:maxOffset])
+		readLength, err := r.Read(chunk[:n])
+		img = append(img, chunk[:readLength]...)
 		if err != nil {
 			if err == io.EOF {
 				break
 			}
 			pr.logError(err).
-				Uint32("offset", offset).
-				Uint32("maxOffset", maxOffset).
+				Uint32("offset", uint32(len(img))).
+				Uint32("size", h.Size).
 				Msgf("error read preview image")
 			return err
 		}
 		if readLength == 0 {
 			break
 		}
-
-		offset += uint32(readLength)
 	}
 
 	pr.PreviewImage = img
